@@ -36,6 +36,34 @@ def run_digest(cfg, ambient, perturb):
                 reseeds=[(a, b, str(c)) for a, b, c in tap.reseeds], after=after)
 
 
+def resume_repro_case(cfg, rs):
+    """construct(random_state) + run(save_every) -> resume twice from a mid-run checkpoint: the two resumed runs must be bit-identical."""
+    import shutil
+    from tvf.checks.c08 import tmpdir
+    tmp = tmpdir()
+    try:
+        c = dict(runs.full(cfg), random_state=rs, output_dir=tmp, output_label="r9")
+        np.random.seed(5)
+        s, t, like, pt = runs.build(c)
+        s.run(n_total=c["n_total"], progress=False, save_every=1)
+        files = sorted((f for f in os.listdir(tmp) if f.startswith("r9_") and "final" not in f), key=lambda f: int(f.split("_")[1].split(".")[0]))
+        if len(files) < 2:
+            return [], 0
+        pick = os.path.join(tmp, files[len(files) // 2])
+        dg = []
+        for amb in (17, 23456):
+            np.random.seed(amb)
+            np.random.rand(amb % 7)
+            s2, _, _, _ = runs.build(c)
+            s2.run(n_total=c["n_total"], progress=False, resume_state_path=pick)
+            dg.append((digest(runs.history(s2)), float(s2.evidence()[0])))
+        if dg[0] != dg[1]:
+            return [("seeded-run-not-reproducible", f"resuming twice from the same checkpoint with random_state={rs}: logZ {dg[0][1]!r} vs {dg[1][1]!r}")], len(files)
+        return [], len(files)
+    finally:
+        shutil.rmtree(tmp, ignore_errors=True)
+
+
 def repro_case(cfg, rs_a, rs_b):
     """Same random_state twice (different ambient) + a different random_state."""
     bad = []
@@ -170,6 +198,23 @@ def run():
         for r in range(seeds):
             ra = ck.subseed("rs", i, r) % 100000
             tasks.append(("tvf.checks.c09:repro_case", dict(cfg=cfg, rs_a=ra, rs_b=ra + 1), None))
+    extra = [dict(target="support", tkw=dict(f=0.5), N=48, n_total=144, clustering=True, kernel="tpcn", mode="blobs", ess_ratio=3.0),
+             dict(target="bimodal", tkw=dict(sep=5.0, p=0.5), N=96, n_total=288, clustering=True, kernel="rwm", mode="vec", split_threshold=0.5, cluster_every=2),
+             dict(target="gauss4", N=48, n_total=144, clustering=True, kernel="tpcn", mode="scalar", volume_variation=1.0, n_max_clusters=3, resample="syst")]
+    for j, cfg in enumerate(extra):
+        ra = ck.subseed("rsx", j) % 100000
+        tasks.append(("tvf.checks.c09:repro_case", dict(cfg=dict(cfg, seed=0), rs_a=ra, rs_b=ra + 1), None))
+    rtasks = [("tvf.checks.c09:resume_repro_case", dict(cfg=dict(runs.small_cfg(i), seed=0), rs=ck.subseed("rr", i) % 100000), None) for i in range(ck.pick(4, 24))]
+    for i, st, val in farm.run(rtasks, timeout=600, progress="C09-resume"):
+        kw = rtasks[i][1]
+        if st != "ok":
+            ck.violation("run-crashed", f"resume reproducibility {kw['cfg']}: {st} {str(val)[-300:]}", kw)
+            continue
+        bad, nck = val
+        ck.case(dict(resume_repro=kw), nontrivial=nck > 1)
+        ck.event("seeded resume pairs compared bitwise")
+        for key, what in bad:
+            ck.violation(key, what, kw)
     for i, st, val in farm.run(tasks, timeout=600, progress="C09-repro"):
         kw = tasks[i][1]
         if st == "timeout":
